@@ -30,6 +30,9 @@ def run(prop, tier):
     for fl in agg["failures"]:
         if fl["prop"] == "C10":
             res.fail(fl["site"], fl["kind"], fl["detail"], fl.get("input"))
+    import props_bcase
+
+    props_bcase.extra(res, tier, prop)
     res.coverage.update(
         {
             "evaluations": agg["idem"],
@@ -55,6 +58,10 @@ def replay(prop, path):
     if d.get("kind") == "no-failing-input-found":
         print(json.dumps(d, indent=1)[:3000])
         return 0
+    if d["input"].get("via") == "props_bcase":
+        import props_bcase
+
+        return props_bcase.replay(prop, path)
     job = dict(d["input"])
     job["features"] = ["idem"]
     sweep._init()
